@@ -382,8 +382,7 @@ def oracle_rot(case, obs):
         if lost:
             fail('rotation-removed-newest', f'rollover {idx} to {s["date"]} with retention {n}: {lost} removed, '
                  f'but the file being written and the {max(n - 1, 0)} newest earlier files must be kept', step=idx)
-        gone = sorted(x for x in names_before if x not in names_after and x not in keep and x not in older
-                      and x != 'current')
+        gone = sorted(x for x in names_before if x not in names_after and x not in keep and x not in older)
         if gone:
             fail('rotation-removed-not-older', f'rollover {idx} to {s["date"]} with retention {n}: {gone} removed, '
                  f'but only older log files may be removed', step=idx)
@@ -413,7 +412,7 @@ def _tail_slice_signature(case, obs, idx):
             break
         expect.append(x)
     after = {e[0] for e in s['listing']}
-    removed = sorted(x for x in entries if x not in after and x != 'current')
+    removed = sorted(x for x in entries if x not in after)
     return expect if removed == sorted(expect) else None
 
 
@@ -584,7 +583,7 @@ def exhaustive_rot():
 
 def gen_cases(seed, tier):
     rng = random.Random(seed * 1000003 + 20)
-    n_route, n_rot = {'quick': (3000, 1500), 'thorough': (40000, 15000), 'search': (40000, 15000)}[tier]
+    n_route, n_rot = {'quick': (2500, 1200), 'thorough': (40000, 15000), 'search': (40000, 15000)}[tier]
     cases = [rand_route(rng) for _ in range(n_route)]
     cases += [rand_rot(rng) for _ in range(n_rot)]
     depths = (1, 2) if tier == 'quick' else (1, 2, 3, 4)
